@@ -7,6 +7,7 @@ import (
 	"io"
 	"net"
 	"strconv"
+	"time"
 
 	"github.com/samaritan-proxy/samaritan/proc/internal/log"
 )
@@ -116,3 +117,11 @@ func (s *VerifSimple) Done() bool {
 
 // Response is the reply (nil until Done).
 func (s *VerifSimple) Response() *RespValue { return s.r.resp }
+
+// VerifSetRefreshTimers replaces the period and the minimum spacing of slot refreshes
+// (package variables) and returns the previous values.
+func VerifSetRefreshTimers(freq, minRate time.Duration) (time.Duration, time.Duration) {
+	f, m := slotsRefFreq, slotsRefMinRate
+	slotsRefFreq, slotsRefMinRate = freq, minRate
+	return f, m
+}
